@@ -13,6 +13,8 @@ STRS = ["", "a", "it's", 'say "hi"', "back\\slash", "tab\there", "nl\nx", "café
 # a quote before a backslash, doubled backslashes, ...), and a few triples
 _SPECIAL = ["\\", "'", '"', "{", "}", "\n", "a", "é"]
 STRS += [x + y for x in _SPECIAL for y in _SPECIAL if x + y not in STRS]
+# text that looks like pieces of mypy's own node rendering (`NameExpr(x)`, `:12` line tags): sameness that falls back on a rendering must not be fooled by it
+STRS += ["host:80", "12:30", "a:1:b", ":7", "x:-3", "NameExpr(a)", "IntExpr(1)", "[a]:2"]
 STRS += ["\\\\'", "C:\\'quoted'", "\\'\\\"", "'\\", "x\\\\\"y", "\\\\n"]
 INTS = [0, 1, 2, 7, 10, 255, 1000, 10**20]
 FLOATS = [0.0, 1.5, 2.0, 1e10, 1e-07, 1e22, 3.14]
@@ -155,8 +157,12 @@ class Gen:
                 if rng.random() < 0.5:
                     vals.append(ast.Constant(value=rng.choice(["", "x", "a b", "{", "q'\"", "\\"])))
                 else:
-                    spec = ast.JoinedStr(values=[ast.Constant(value=rng.choice([">10", ".2f", "x"]))]) if rng.random() < 0.3 else None
-                    vals.append(ast.FormattedValue(value=e(), conversion=-1, format_spec=spec))
+                    # every combination of the parts a field can have: conversion flag, format spec (plain or with a nested field)
+                    r_spec = rng.random()
+                    spec = (ast.JoinedStr(values=[ast.Constant(value=rng.choice([">10", ".2f", "x", "^8", "05", "s"]))]) if r_spec < 0.35 else
+                            ast.JoinedStr(values=[ast.Constant(value=">"), ast.FormattedValue(value=self.name(), conversion=-1, format_spec=None)]) if r_spec < 0.45 else None)
+                    conv = rng.choice([-1, -1, -1, ord("r"), ord("s"), ord("a")])
+                    vals.append(ast.FormattedValue(value=e(), conversion=conv, format_spec=spec))
             return ast.JoinedStr(values=vals)
         return self.leaf()
 
@@ -205,8 +211,17 @@ def mutants(rng, node, n: int = 3) -> list[tuple[str, ast.AST]]:
             x.ops[i] = rng.choice([o for o in CMPOPS if not isinstance(x.ops[i], o)])(); kind = "cmp-op"
         elif isinstance(x, ast.Constant) and isinstance(x.value, int) and not isinstance(x.value, bool):
             x.value = x.value + 1 if rng.random() < 0.5 else float(x.value); kind = "literal"
+        elif isinstance(x, ast.Constant) and isinstance(x.value, (str, bytes)) and any(c in "0123456789" for c in (x.value if isinstance(x.value, str) else x.value.decode("latin1"))) \
+                and rng.random() < 0.6:
+            # the same text with one more digit in its first run of digits
+            txt = x.value if isinstance(x.value, str) else x.value.decode("latin1")
+            i = next(k for k, c in enumerate(txt) if c in "0123456789")
+            txt = txt[:i + 1] + rng.choice("0123456789") + txt[i + 1:]
+            x.value = txt if isinstance(x.value, str) else txt.encode("latin1"); kind = "literal-digit"
         elif isinstance(x, ast.Constant) and isinstance(x.value, str):
             x.value = x.value + "!" if rng.random() < 0.7 else x.value.encode("utf8", "replace"); kind = "literal"
+        elif isinstance(x, ast.Constant) and isinstance(x.value, bytes):
+            x.value = x.value + b"!" if rng.random() < 0.7 else x.value.decode("latin1"); kind = "literal"
         elif isinstance(x, ast.Call):
             m = rng.randrange(5)
             if m == 0:
